@@ -62,6 +62,11 @@ impl<'a> Tape<'a> {
         self.pos >= self.data.len()
     }
 
+    /// the whole tape (for artefacts that embed their own replay data)
+    pub fn all_bytes(&self) -> &'a [u8] {
+        self.data
+    }
+
     pub fn consumed(&self) -> usize {
         self.pos.min(self.data.len())
     }
